@@ -2,6 +2,9 @@
   Executable model of src/sp/protocol/pipeline0/pull.c as seen through the socket core.
   A pipe holds at most one received message (`held`); it re-arms its transport receive
   only when that message has been handed to a receiver (back-pressure to the pusher).
+
+  Layout: one function per event, each a single record update per C branch
+  (see Proofs/Pull.lean).
 -/
 import NngModel.Proto.Base
 import NngModel.Generated.Consts
@@ -43,27 +46,34 @@ deriving Repr, Inhabited
 
 def peerPush : Nat := Nng.Generated.protoPush
 
-def getPipe (s : State) (p : Nat) : Option Pipe := s.pipes.find? (·.id == p)
-def setPipe (s : State) (pp : Pipe) : State :=
-  { s with pipes := s.pipes.map fun q => if q.id == pp.id then pp else q }
+def getP (ps : List Pipe) (p : Nat) : Option Pipe := ps.find? (·.id == p)
 
+def setP (ps : List Pipe) (pp : Pipe) : List Pipe :=
+  ps.map fun q => if q.id == pp.id then pp else q
+
+def getPipe (s : State) (p : Nat) : Option Pipe := getP s.pipes p
+
+/-- nni_pipe_close as seen by this protocol: pull0_pipe_close, later pull0_pipe_fini
+    frees the message the pipe still holds -/
 def closePipe (s : State) (p : Nat) : State × List Out :=
   match getPipe s p with
   | none => (s, [])
   | some pp =>
     if pp.closed then (s, [])
     else
-      let s := setPipe s { pp with closed := true, armed := false, held := none }
-      let s := match pp.held with
-        | some m => { s with discarded := s.discarded ++ [m] }
-        | none => s
-      let s :=
-        if s.pl.contains p then
-          let pl := s.pl.filter (· != p)
-          let s := { s with pl := pl }
-          if pl.isEmpty then { s with readable := false } else s
-        else s
-      (s, [Out.pclosed p])
+      let pl := s.pl.filter (· != p)
+      ({ s with pipes := setP s.pipes { pp with closed := true, armed := false, held := none },
+                discarded := s.discarded ++ pp.held.toList,
+                pl := pl,
+                readable := if s.pl.contains p && pl.isEmpty then false else s.readable },
+        [Out.pclosed p])
+
+def closeAll (s : State) : List Nat → State × List Out
+  | [] => (s, [])
+  | p :: ps =>
+    let r := closePipe s p
+    let r2 := closeAll r.1 ps
+    (r2.1, r.2 ++ r2.2)
 
 def deadlineOf (now : Nat) : Mode → Option Nat
   | .ms n => some (now + n)
@@ -74,80 +84,100 @@ def failParked (s : State) (a : Nat) (rv : Nat) : State × List Out :=
     ({ s with rq := s.rq.filter (·.aio != a) }, [Out.done a rv none false])
   else (s, [])
 
-def expire (s : State) : State × List Out :=
-  let due := s.rq.filter fun pk => match pk.deadline with | some d => d < s.now | none => false
-  due.foldl (fun (acc : State × List Out) pk =>
-    let (s', o) := failParked acc.1 pk.aio Err.etimedout
-    (s', acc.2 ++ o)) (s, [])
+def failEach (s : State) (rv : Nat) : List Nat → State × List Out
+  | [] => (s, [])
+  | a :: as =>
+    let r := failParked s a rv
+    let r2 := failEach r.1 rv as
+    (r2.1, r.2 ++ r2.2)
 
-def step (s : State) (ev : Ev) : State × List Out :=
-  if !s.opened then
-    match ev with
-    | .openSock _ _ => ({ s with opened := true }, [.rv 0])
-    | .advance ms => ({ s with now := s.now + ms }, [])
-    | _ => (s, [.other "nosock"])
-  else if s.closed then
-    match ev with
-    | .advance ms => ({ s with now := s.now + ms }, [])
-    | _ => (s, [.other "nosock"])
+def isDue (now : Nat) (pk : Parked) : Bool :=
+  match pk.deadline with | some d => d < now | none => false
+
+def expire (s : State) : State × List Out :=
+  failEach s Err.etimedout ((s.rq.filter (isDue s.now)).map (·.aio))
+
+/-- a receive that finds no message fails at once in these modes -/
+def failNow : Mode → Option Nat
+  | .nb => some Err.eagain
+  | .ms 0 => some Err.etimedout
+  | _ => none
+
+def evPipeAdd (s : State) (peer : Nat) : State × List Out :=
+  let id := s.pipes.length
+  if peer != peerPush then
+    ({ s with pipes := s.pipes ++ [{ id := id, closed := true }] }, [.pipe id, .pclosed id])
   else
-  match ev with
-  | .openSock _ _ => (s, [.other "bad-op"])
-  | .pipeAdd peer =>
-    let id := s.pipes.length
-    if peer != peerPush then
-      ({ s with pipes := s.pipes ++ [{ id := id, closed := true }] }, [.pipe id, .pclosed id])
+    ({ s with pipes := s.pipes ++ [{ id := id, armed := true }] }, [.pipe id, .parm id])
+
+def evPipeDrop (s : State) (p : Nat) : State × List Out :=
+  match getPipe s p with
+  | some pp =>
+    if pp.closed then (s, [.rv (-1)])
+    else let r := closePipe s p; (r.1, [.rv 0] ++ r.2)
+  | none => (s, [.rv (-1)])
+
+/-- pull0_recv_cb -/
+def evRecvDone (s : State) (p : Nat) (r : Except Nat Bytes) : State × List Out :=
+  match getPipe s p with
+  | some pp =>
+    if pp.closed || !pp.armed then (s, [.rv (-1)])
     else
-      ({ s with pipes := s.pipes ++ [{ id := id, armed := true }] }, [.pipe id, .parm id])
-  | .pipeDrop p =>
+      match r with
+      | .error _ => let r := closePipe s p; (r.1, [.rv 0] ++ r.2)
+      | .ok b =>
+        let gm : GMsg := ⟨s.narrive, p, ⟨[], b⟩⟩
+        match s.rq with
+        | [] =>
+          -- nobody waiting: the pipe keeps the message and does not re-arm
+          ({ s with narrive := s.narrive + 1, arrived := s.arrived ++ [gm],
+                    pipes := setP s.pipes { pp with armed := false, held := some gm },
+                    pl := s.pl ++ [p],
+                    readable := if (s.pl ++ [p]).head? == some p then true else s.readable },
+            [.rv 0])
+        | a :: rest =>
+          ({ s with narrive := s.narrive + 1, arrived := s.arrived ++ [gm],
+                    rq := rest, delivered := s.delivered ++ [gm] },
+            [.rv 0, .parm p, .done a.aio 0 (some gm.m) false])
+  | none => (s, [.rv (-1)])
+
+/-- pull0_sock_recv -/
+def evRecv (s : State) (a : Nat) (mode : Mode) : State × List Out :=
+  if s.rq.any (·.aio == a) then (s, [.other "aio-busy"]) else
+  match s.pl with
+  | [] =>
+    match failNow mode with
+    | some rv => (s, [.done a rv none false])
+    | none => ({ s with rq := s.rq ++ [⟨a, deadlineOf s.now mode⟩] }, [])
+  | p :: rest =>
     match getPipe s p with
     | some pp =>
-      if pp.closed then (s, [.rv (-1)])
-      else let (s, o) := closePipe s p; (s, [.rv 0] ++ o)
-    | none => (s, [.rv (-1)])
-  | .sendDone _ _ => (s, [.rv (-1)])
-  | .recvDone p r =>
-    match getPipe s p with
-    | some pp =>
-      if pp.closed || !pp.armed then (s, [.rv (-1)])
-      else
-        match r with
-        | .error _ => let (s, o) := closePipe s p; (s, [.rv 0] ++ o)
-        | .ok b =>
-          let gm : GMsg := ⟨s.narrive, p, ⟨[], b⟩⟩
-          let s := { s with narrive := s.narrive + 1, arrived := s.arrived ++ [gm] }
-          match s.rq with
-          | [] =>
-            -- nobody waiting: the pipe keeps the message and does not re-arm
-            let s := setPipe s { pp with armed := false, held := some gm }
-            let s := { s with pl := s.pl ++ [p] }
-            let s := if s.pl.head? == some p then { s with readable := true } else s
-            (s, [.rv 0])
-          | a :: rest =>
-            let s := { s with rq := rest, delivered := s.delivered ++ [gm] }
-            (s, [.rv 0, .parm p, .done a.aio 0 (some gm.m) false])
-    | none => (s, [.rv (-1)])
-  | .send _ a _ _ =>
-    if s.rq.any (·.aio == a) then (s, [.other "aio-busy"]) else (s, [.done a Err.enotsup none true])
-  | .recv _ a mode =>
-    if s.rq.any (·.aio == a) then (s, [.other "aio-busy"]) else
-    match s.pl with
-    | [] =>
-      match mode with
-      | .nb => (s, [.done a Err.eagain none false])
-      | .ms 0 => (s, [.done a Err.etimedout none false])
-      | _ => ({ s with rq := s.rq ++ [⟨a, deadlineOf s.now mode⟩] }, [])
-    | p :: rest =>
-      match getPipe s p with
-      | some pp =>
-        match pp.held with
-        | some gm =>
-          let s := { s with pl := rest, delivered := s.delivered ++ [gm] }
-          let s := if rest.isEmpty then { s with readable := false } else s
-          let s := setPipe s { pp with held := none, armed := true }
-          (s, [.done a 0 (some gm.m) false, .parm p])
-        | none => (s, [.other "model-invariant-broken"])
+      match pp.held with
+      | some gm =>
+        ({ s with pl := rest, delivered := s.delivered ++ [gm],
+                  readable := if rest.isEmpty then false else s.readable,
+                  pipes := setP s.pipes { pp with held := none, armed := true } },
+          [.done a 0 (some gm.m) false, .parm p])
       | none => (s, [.other "model-invariant-broken"])
+    | none => (s, [.other "model-invariant-broken"])
+
+def evSend (s : State) (a : Nat) : State × List Out :=
+  if s.rq.any (·.aio == a) then (s, [.other "aio-busy"]) else (s, [.done a Err.enotsup none true])
+
+/-- pull0_sock_close fails the waiting receivers; the core closes every pipe -/
+def evClose (s : State) : State × List Out :=
+  let outs1 := s.rq.map fun pk => Out.done pk.aio Err.eclosed none false
+  let r := closeAll { s with rq := [] } (s.pipes.map (·.id))
+  ({ r.1 with closed := true }, outs1 ++ r.2)
+
+def stepLive (s : State) : Ev → State × List Out
+  | .openSock _ _ => (s, [.other "bad-op"])
+  | .pipeAdd peer => evPipeAdd s peer
+  | .pipeDrop p => evPipeDrop s p
+  | .sendDone _ _ => (s, [.rv (-1)])
+  | .recvDone p r => evRecvDone s p r
+  | .send _ a _ _ => evSend s a
+  | .recv _ a mode => evRecv s a mode
   | .cancel a => failParked s a Err.ecanceled
   | .abort a rv => failParked s a rv
   | .advance ms => expire { s with now := s.now + ms }
@@ -158,12 +188,19 @@ def step (s : State) (ev : Ev) : State × List Out :=
   | .poll => (s, [.poll (some s.readable) none])
   | .sub _ _ => (s, [.other "bad-op"])
   | .unsub _ _ => (s, [.other "bad-op"])
-  | .close =>
-    let outs1 := s.rq.map fun pk => Out.done pk.aio Err.eclosed none false
-    let s := { s with rq := [] }
-    let (s, outs2) := s.pipes.foldl (fun (acc : State × List Out) pp =>
-      let (s', o) := closePipe acc.1 pp.id
-      (s', acc.2 ++ o)) (s, [])
-    ({ s with closed := true }, outs1 ++ outs2)
+  | .close => evClose s
+
+/-- before `open` and after `close` only the clock moves -/
+def stepIdle (s : State) : Ev → State × List Out
+  | .advance ms => ({ s with now := s.now + ms }, [])
+  | _ => (s, [.other "nosock"])
+
+def step (s : State) (ev : Ev) : State × List Out :=
+  if !s.opened then
+    match ev with
+    | .openSock _ _ => ({ s with opened := true }, [.rv 0])
+    | ev => stepIdle s ev
+  else if s.closed then stepIdle s ev
+  else stepLive s ev
 
 end Nng.Pull
